@@ -79,6 +79,7 @@ def explore(contract: Contract, index: Index, registry=None, max_paths=MAX_PATHS
             it = Interp(ctx, index, contracts=callee, inline=set(contract.inline))
             s.it = it
             it.opaque_calls = set(getattr(contract, "opaque_calls", ()))
+            it.abstract_calls = contract.abstract_calls(s, args) if hasattr(contract, "abstract_calls") else None
             it.loop_specs = _loop_specs(contract, fi, s, args)
             outcome, value, exc, reason, line = "return", None, None, "", None
             self_val = args.get("__self__") if isinstance(args, dict) else None
